@@ -160,9 +160,9 @@ static _Bool vg_expect_next(struct reader_iter *it, unsigned *f, _Bool *dead, co
 	mtbl_res res = reader_iter_next(it, &k, &lk, &v, &lv);
 	struct vg_ent ent; _Bool have = vg_flat(*f, &ent); const struct vg_ent *e = &ent;
 	_Bool want = !*dead && have && vg_in_bound(it, e);
-	VG_P("C03,C02,C01,C11", (res == mtbl_res_success) == want, "next succeeds iff the next entry in key order exists and satisfies the iterator's bound (failure is sticky)");
+	VG_P("C03,C02,C01,C11,C05", (res == mtbl_res_success) == want, "next succeeds iff the next entry in key order exists and satisfies the iterator's bound (failure is sticky)");
 	if (res == mtbl_res_success && want) {
-		VG_P("C03,C02,C01,C11", k == e->k && lk == e->lk && v == e->v && lv == 1, "next returns exactly the next entry in key order (key and value)");
+		VG_P("C03,C02,C01,C11,C05", k == e->k && lk == e->lk && v == e->v && lv == 1, "next returns exactly the next entry in key order (key and value)");
 		(*f)++;
 	} else *dead = 1;
 	return res == mtbl_res_success;
@@ -265,12 +265,12 @@ void h_reader_lookup(void)
 	unsigned f = in_kind == 0 ? 0 : vg_lower(q0, l0);
 	if (mi == NULL) {
 		/* NULL = empty result: legal only when no entry >= query exists at all */
-		VG_P("C02", in_kind != 0 && f == vg_total(), "a lookup returns no iterator only when no entry >= the query exists");
+		VG_P("C02,C05", in_kind != 0 && f == vg_total(), "a lookup returns no iterator only when no entry >= the query exists");
 		VG_P("C18", vg_blocks_live == 0 && vg_iters_live == 0, "a failed lookup releases everything");
 		return;
 	}
 	struct reader_iter *it = mi->clos; _Bool dead = 0;
-	VG_P("C02", it->it_type == in_kind, "iterator kind");
+	VG_P("C02,C05", it->it_type == in_kind, "iterator kind");
 	if (vg_expect_next(it, &f, &dead, "")) if (vg_expect_next(it, &f, &dead, "")) if (vg_expect_next(it, &f, &dead, "")) (void)vg_expect_next(it, &f, &dead, "");
 	(void)vg_expect_next(it, &f, &dead, "");
 	VG_REACH("lookup drain completes");
